@@ -26,7 +26,7 @@ Definition flow_client_Conn_ConnectTo : list string :=
 Definition flow_client_Conn_ConnectToContext : list string :=
   ["set conn.cfg.Server"; "if{"; "set conn.cfg.Pass"; "}"; "conn.ConnectContext"; "return"].
 Definition flow_client_Conn_Connected : list string :=
-  ["conn.mu.RLock"; "defer conn.mu.RUnlock"; "return"].
+  ["conn.connectedMu.RLock"; "defer conn.connectedMu.RUnlock"; "return"].
 Definition flow_client_Conn_Ctcp : list string :=
   ["for{"; "splitMessage"; "if{"; "}"; "conn.Raw"; "strings.ToUpper"; "}"].
 Definition flow_client_Conn_CtcpReply : list string :=
@@ -102,7 +102,7 @@ Definition flow_client_Conn_addIntHandlers : list string :=
 Definition flow_client_Conn_addSTHandlers : list string :=
   ["for{"; "conn.handle"; "set conn.stRemovers"; "}"].
 Definition flow_client_Conn_closeIf : list string :=
-  ["conn.mu.Lock"; "if{"; "conn.mu.Unlock"; "return"; "}"; "set conn.connected"; "conn.sock.Close"; "if{"; "conn.die"; "}"; "go func"; "{"; "conn.wg.Wait"; "close"; "}"; "for{"; "select{"; "case"; "recv conn.in"; "case"; "recv conn.out"; "case"; "recv done"; "}"; "}"; "conn.mu.Unlock"; "conn.dispatch"; "time.Now"; "return"].
+  ["conn.mu.Lock"; "if{"; "conn.mu.Unlock"; "return"; "}"; "conn.setConnected"; "conn.sock.Close"; "if{"; "conn.die"; "}"; "go func"; "{"; "conn.wg.Wait"; "close"; "}"; "for{"; "select{"; "case"; "recv conn.in"; "case"; "recv conn.out"; "case"; "recv done"; "}"; "}"; "conn.mu.Unlock"; "conn.dispatch"; "time.Now"; "return"].
 Definition flow_client_Conn_delSTHandlers : list string :=
   ["for{"; "h.Remove"; "}"; "set conn.stRemovers"].
 Definition flow_client_Conn_dialProxy : list string :=
@@ -174,7 +174,7 @@ Definition flow_client_Conn_handleCapNak : list string :=
 Definition flow_client_Conn_initialise : list string :=
   ["set conn.io"; "set conn.sock"; "set conn.in"; "set conn.out"; "set conn.die"; "if{"; "conn.st.Wipe"; "}"].
 Definition flow_client_Conn_internalConnect : list string :=
-  ["conn.mu.Lock"; "defer conn.mu.Unlock"; "if{"; "return"; "}"; "if{"; "return"; "}"; "conn.initialise"; "hasPort"; "if{"; "if{"; "net.JoinHostPort"; "set conn.cfg.Server"; "}"; "else{"; "net.JoinHostPort"; "set conn.cfg.Server"; "}"; "}"; "if{"; "conn.dialProxy"; "if{"; "return"; "}"; "set conn.sock"; "}"; "else{"; "conn.dialer.DialContext"; "if{"; "set conn.sock"; "}"; "else{"; "return"; "}"; "}"; "if{"; "tls.Client"; "s.Handshake"; "if{"; "return"; "}"; "set conn.sock"; "}"; "conn.postConnect"; "set conn.connected"; "return"].
+  ["conn.mu.Lock"; "defer conn.mu.Unlock"; "if{"; "return"; "}"; "if{"; "return"; "}"; "conn.initialise"; "hasPort"; "if{"; "if{"; "net.JoinHostPort"; "set conn.cfg.Server"; "}"; "else{"; "net.JoinHostPort"; "set conn.cfg.Server"; "}"; "}"; "if{"; "conn.dialProxy"; "if{"; "return"; "}"; "set conn.sock"; "}"; "else{"; "conn.dialer.DialContext"; "if{"; "set conn.sock"; "}"; "else{"; "return"; "}"; "}"; "if{"; "tls.Client"; "s.Handshake"; "if{"; "return"; "}"; "set conn.sock"; "}"; "conn.postConnect"; "conn.setConnected"; "return"].
 Definition flow_client_Conn_negotiateCapabilities : list string :=
   ["conn.supportedCaps.Add"; "conn.getRequestCapabilities"; "reqCaps.Intersect"; "reqCaps.Size"; "if{"; "conn.Cap"; "reqCaps.Slice"; "}"; "else{"; "conn.Cap"; "}"].
 Definition flow_client_Conn_ping : list string :=
@@ -189,6 +189,8 @@ Definition flow_client_Conn_runLoop : list string :=
   ["for{"; "select{"; "case"; "recv conn.in"; "conn.dispatch"; "case"; "ctx.Done"; "recv ctx.Done()"; "conn.wg.Done"; "conn.closeIf"; "return"; "}"; "}"].
 Definition flow_client_Conn_send : list string :=
   ["for{"; "select{"; "case"; "recv conn.out"; "conn.write"; "if{"; "err.Error"; "conn.wg.Done"; "conn.closeIf"; "return"; "}"; "case"; "ctx.Done"; "recv ctx.Done()"; "conn.wg.Done"; "return"; "}"; "}"].
+Definition flow_client_Conn_setConnected : list string :=
+  ["conn.connectedMu.Lock"; "set conn.connected"; "conn.connectedMu.Unlock"].
 Definition flow_client_Conn_write : list string :=
   ["if{"; "conn.rateLimit"; "if{"; "t.Seconds"; "time.After"; "recv time.After(t)"; "}"; "}"; "conn.io.WriteString"; "if{"; "return"; "}"; "conn.io.Flush"; "if{"; "return"; "}"; "strings.HasPrefix"; "if{"; "}"; "return"].
 Definition flow_client_DefaultNewNick : list string :=
@@ -256,6 +258,8 @@ Definition chan_recvs_client : list (string * string) :=
   [("Conn.closeIf", "conn.in"); ("Conn.closeIf", "conn.out"); ("Conn.closeIf", "done"); ("Conn.drainIn", "conn.in"); ("Conn.drainOut", "conn.out"); ("Conn.ping", "tick.C"); ("Conn.ping", "ctx.Done()"); ("Conn.postConnect", "ctx.Done()"); ("Conn.runLoop", "conn.in"); ("Conn.runLoop", "ctx.Done()"); ("Conn.send", "conn.out"); ("Conn.send", "ctx.Done()"); ("Conn.write", "time.After(t)")].
 Definition go_stmts_client : list (string * string) :=
   [("Conn.closeIf", "func"); ("Conn.dispatch", "conn.bgHandlers.dispatch"); ("Conn.postConnect", "conn.send"); ("Conn.postConnect", "conn.recv"); ("Conn.postConnect", "conn.runLoop"); ("Conn.postConnect", "conn.ping"); ("Conn.postConnect", "func"); ("hSet.dispatch", "func")].
+Definition cfg_uses_client : list (string * string) :=
+  [("Client", "Me"); ("Client", "Timeout"); ("Client", "DualStack"); ("Client", "LocalAddr"); ("Client", "Sasl"); ("Client", "EnableCapabilityNegotiation"); ("Conn.ConnectToContext", "Server"); ("Conn.ConnectToContext", "Pass"); ("Conn.Ctcp", "SplitLen"); ("Conn.CtcpReply", "SplitLen"); ("Conn.DisableStateTracking", "Me"); ("Conn.EnableStateTracking", "Me"); ("Conn.Me", "Me"); ("Conn.Notice", "SplitLen"); ("Conn.Privmsg", "SplitLen"); ("Conn.Quit", "QuitMessage"); ("Conn.String", "Server"); ("Conn.dialProxy", "Proxy"); ("Conn.dialProxy", "Server"); ("Conn.getRequestCapabilities", "Sasl"); ("Conn.getRequestCapabilities", "Capabilites"); ("Conn.h_001", "Me"); ("Conn.h_433", "NewNick"); ("Conn.h_433", "Me"); ("Conn.h_AUTHENTICATE", "Sasl"); ("Conn.h_CTCP", "Version"); ("Conn.h_NICK", "Me"); ("Conn.h_REGISTER", "EnableCapabilityNegotiation"); ("Conn.h_REGISTER", "Pass"); ("Conn.h_REGISTER", "Me"); ("Conn.handleCapAck", "Sasl"); ("Conn.internalConnect", "Server"); ("Conn.internalConnect", "SSL"); ("Conn.internalConnect", "Proxy"); ("Conn.internalConnect", "SSLConfig"); ("Conn.ping", "PingFreq"); ("Conn.postConnect", "PingFreq"); ("Conn.write", "Flood"); ("NewConfig", "Me"); ("NewConfig", "Version"); ("NewConfig", "QuitMessage"); ("hNode.Handle", "Recover")].
 
 Definition flow_state_ChanMode_Copy : list string :=
   ["if{"; "return"; "}"; "return"].
@@ -436,6 +440,77 @@ Definition chan_recvs_state : list (string * string) :=
   [].
 Definition go_stmts_state : list (string * string) :=
   [].
+Definition cfg_uses_state : list (string * string) :=
+  [].
+
+Definition log_calls_client : list (string * string * string * list string) :=
+  [("Client", "Error", "irc.Client(): Cannot resolve local address %s: %s", ["cfg.LocalAddr"; "err"]);
+   ("Client", "Warn", "Enabling capability negotiation as it's required for SASL", []);
+   ("Conn.internalConnect", "Info", "irc.Connect(): Connecting via proxy %q: %v", ["conn.cfg.Proxy"; "err"]);
+   ("Conn.internalConnect", "Info", "irc.Connect(): Connecting to %s.", ["conn.cfg.Server"]);
+   ("Conn.internalConnect", "Info", "irc.Connect(): Performing SSL handshake.", []);
+   ("Conn.dialProxy", "Info", "irc.Connect(): Connecting to %s.", ["conn.cfg.Server"]);
+   ("Conn.dialProxy", "Warn", "Dialer for proxy does not support context, please implement DialContext", []);
+   ("Conn.dialProxy", "Info", "irc.Connect(): Connecting to %s.", ["conn.cfg.Server"]);
+   ("Conn.send", "Error", "irc.send(): %s", ["err.Error()"]);
+   ("Conn.recv", "Error", "irc.recv(): %s", ["err.Error()"]);
+   ("Conn.recv", "Debug", "<- %s", ["s"]);
+   ("Conn.recv", "Warn", "irc.recv(): problems parsing line:\x0a  %s", ["s"]);
+   ("Conn.write", "Info", "irc.rateLimit(): Flood! Sleeping for %.2f secs.", ["t.Seconds()"]);
+   ("Conn.write", "Debug", "-> %s", ["line"]);
+   ("Conn.closeIf", "Info", "irc.Close(): Disconnected from server.", []);
+   ("hSet.remove", "Error", "Removing node for unknown event '%s'", ["hn.event"]);
+   ("Conn.LogPanic", "Error", "%s:%d: panic: %v", ["f"; "l"; "err"]);
+   ("Conn.handleCapAck", "Warn", "SASL authentication failed: %v", ["err"]);
+   ("Conn.h_410", "Warn", "Invalid cap subcommand: ", ["line.Args[1]"]);
+   ("Conn.h_AUTHENTICATE", "Error", "Failed to decode SASL challenge: %v", ["err"]);
+   ("Conn.h_AUTHENTICATE", "Error", "Failed to generate response for SASL challenge: %v", ["err"]);
+   ("Conn.h_904", "Warn", "SASL authentication failed", []);
+   ("Conn.h_908", "Warn", "SASL mechanism not supported, supported mechanisms are: %v", ["line.Args[1]"]);
+   ("Conn.h_001", "Warn", "Server changed our nick on connect: old=%q new=%q", ["me.Nick"; "nick"]);
+   ("Line.argslen", "Warn", "%s: too few arguments: %s", ["fn.Name()"; "strings.Join(line.Args, "" "")"]);
+   ("Conn.h_JOIN", "Warn", "irc.JOIN(): JOIN to unknown channel %s received from (non-me) nick %s", ["line.Args[0]"; "line.Nick"]);
+   ("Conn.h_MODE", "Warn", "irc.MODE(): recieved MODE %s for (non-me) nick %s", ["line.Args[1]"; "line.Args[0]"]);
+   ("Conn.h_MODE", "Warn", "irc.MODE(): not sure what to do with MODE %s", ["strings.Join(line.Args, "" "")"]);
+   ("Conn.h_TOPIC", "Warn", "irc.TOPIC(): topic change on unknown channel %s", ["line.Args[0]"]);
+   ("Conn.h_311", "Warn", "irc.311(): received WHOIS info for unknown nick %s", ["line.Args[1]"]);
+   ("Conn.h_324", "Warn", "irc.324(): received MODE settings for unknown channel %s", ["line.Args[1]"]);
+   ("Conn.h_332", "Warn", "irc.332(): received TOPIC value for unknown channel %s", ["line.Args[1]"]);
+   ("Conn.h_352", "Warn", "irc.352(): received WHO reply for unknown nick %s", ["line.Args[5]"]);
+   ("Conn.h_353", "Warn", "irc.353(): received NAMES list for unknown channel %s", ["line.Args[2]"]);
+   ("Conn.h_671", "Warn", "irc.671(): received WHOIS SSL info for unknown nick %s", ["line.Args[1]"])].
+
+Definition log_calls_state : list (string * string * string * list string) :=
+  [("channel.addNick", "Warn", "Channel.addNick(): %s already on %s.", ["nk.nick"; "ch.name"]);
+   ("channel.delNick", "Warn", "Channel.delNick(): %s not on %s.", ["nk.nick"; "ch.name"]);
+   ("channel.parseModes", "Warn", "Channel.ParseModes(): not enough arguments to process MODE %s %s%c", ["ch.name"; "modestr"; "m"]);
+   ("channel.parseModes", "Warn", "Channel.ParseModes(): not enough arguments to process MODE %s %s%c", ["ch.name"; "modestr"; "m"]);
+   ("channel.parseModes", "Warn", "Channel.ParseModes(): untracked nick %s received MODE on channel %s", ["modeargs[0]"; "ch.name"]);
+   ("channel.parseModes", "Warn", "Channel.ParseModes(): not enough arguments to process MODE %s %s%c", ["ch.name"; "modestr"; "m"]);
+   ("channel.parseModes", "Info", "Channel.ParseModes(): unknown mode char %c", ["m"]);
+   ("nick.addChannel", "Warn", "Nick.addChannel(): %s already on %s.", ["nk.nick"; "ch.name"]);
+   ("nick.delChannel", "Warn", "Nick.delChannel(): %s not on %s.", ["nk.nick"; "ch.name"]);
+   ("nick.parseModes", "Info", "Nick.ParseModes(): unknown mode char %c", ["m"]);
+   ("stateTracker.NewNick", "Warn", "Tracker.NewNick(): Not tracking empty nick.", []);
+   ("stateTracker.NewNick", "Warn", "Tracker.NewNick(): %s already tracked.", ["n"]);
+   ("stateTracker.ReNick", "Warn", "Tracker.ReNick(): %s not tracked.", ["old"]);
+   ("stateTracker.ReNick", "Warn", "Tracker.ReNick(): %s already exists.", ["neu"]);
+   ("stateTracker.DelNick", "Warn", "Tracker.DelNick(): won't delete myself.", []);
+   ("stateTracker.DelNick", "Warn", "Tracker.DelNick(): %s not tracked.", ["n"]);
+   ("stateTracker.delNick", "Error", "Tracker.DelNick(): TRYING TO DELETE ME :-(", []);
+   ("stateTracker.delNick", "Error", "Tracker.delNick(): deleting nick %s emptied channel %s, this shouldn't happen!", ["nk.nick"; "ch.name"]);
+   ("stateTracker.NewChannel", "Warn", "Tracker.NewChannel(): Not tracking empty channel.", []);
+   ("stateTracker.NewChannel", "Warn", "Tracker.NewChannel(): %s already tracked.", ["c"]);
+   ("stateTracker.DelChannel", "Warn", "Tracker.DelChannel(): %s not tracked.", ["c"]);
+   ("stateTracker.Associate", "Error", "Tracker.Associate(): channel %s not found in internal state.", ["c"]);
+   ("stateTracker.Associate", "Error", "Tracker.Associate(): nick %s not found in internal state.", ["n"]);
+   ("stateTracker.Associate", "Warn", "Tracker.Associate(): %s already on %s.", ["nk"; "ch"]);
+   ("stateTracker.Dissociate", "Error", "Tracker.Dissociate(): channel %s not found in internal state.", ["c"]);
+   ("stateTracker.Dissociate", "Error", "Tracker.Dissociate(): nick %s not found in internal state.", ["n"]);
+   ("stateTracker.Dissociate", "Warn", "Tracker.Dissociate(): %s not on %s.", ["nk.nick"; "ch.name"])].
+
+Definition newconfig_defaults : list (string * string) :=
+  [("Me", "&state.Nick{Nick: nick}"); ("PingFreq", "3 * time.Minute"); ("NewNick", "DefaultNewNick"); ("Recover", "(*Conn).LogPanic"); ("SplitLen", "defaultSplit"); ("Timeout", "60 * time.Second"); ("EnableCapabilityNegotiation", "false")].
 
 Definition var_client_intHandlers : list string :=
   ["""REGISTER"""; "(*Conn).h_REGISTER"; """001"""; "(*Conn).h_001"; """433"""; "(*Conn).h_433"; """CTCP"""; "(*Conn).h_CTCP"; """NICK"""; "(*Conn).h_NICK"; """PING"""; "(*Conn).h_PING"; """CAP"""; "(*Conn).h_CAP"; """410"""; "(*Conn).h_410"; """AUTHENTICATE"""; "(*Conn).h_AUTHENTICATE"; """903"""; "(*Conn).h_903"; """904"""; "(*Conn).h_904"; """908"""; "(*Conn).h_908"].
